@@ -34,16 +34,23 @@ Definition m_td (x : tdata) : @mval F :=
   MRec [("command", m_opt (fun k => MV (VC k)) (td_cmd x)); ("state", m_opt (fun y => MV (VS y)) (td_state x)); ("time", m_t (td_time x))].
 Definition m_tdatum (d : datum tdata) : @mval F := MRec [("time", m_t (d_time d)); ("value", m_td (d_val d))].
 
-(* the calls made on the wrapped object, oldest first *)
-Inductive call := CSet (x : tdata) | CUpdate | CGet.
+(* the calls made on external objects, oldest first: which object, which function, which arguments *)
+Inductive call := CSet (x : tdata) | CUpdate | CGet                       (* on `inner` *)
+                | CTime (t : Z) | CStateSet (x : @state F) | CCmdSet (k : @command F) | CPidUpdate.   (* PIDWrapper's shared objects *)
+Definition m_entry (prev : @mval F) (obj fn : string) (args : list (@mval F)) : @mval F :=
+  MRec [("args", MArr args); ("fn", MVariant fn); ("obj", MVariant obj); ("prev", prev)].
 Definition m_call (prev : @mval F) (k : call) : @mval F :=
   match k with
-  | CSet x => MRec [("args", MArr [m_td x]); ("fn", MVariant "set"); ("prev", prev)]
-  | CUpdate => MRec [("args", MArr []); ("fn", MVariant "update"); ("prev", prev)]
-  | CGet => MRec [("args", MArr []); ("fn", MVariant "get"); ("prev", prev)]
+  | CSet x => m_entry prev "inner" "set" [m_td x]
+  | CUpdate => m_entry prev "inner" "update" []
+  | CGet => m_entry prev "inner" "get" []
+  | CTime t => m_entry prev "time" "=" [m_t t]
+  | CStateSet x => m_entry prev "state" "set" [MV (VS x)]
+  | CCmdSet k => m_entry prev "command" "set" [MV (VC k)]
+  | CPidUpdate => m_entry prev "pid" "update" []
   end.
 Definition m_calls (l : list call) : @mval F := fold_left m_call l MNone.
-Definition m_wrapper (l : list call) (t : @mval F) : @mval F := MRec [("inner", MRec [("log", m_calls l)]); ("terminal", t)].
+Definition m_wrapper (l : list call) (t : @mval F) : @mval F := MRec [("ext_log", m_calls l); ("terminal", t)].
 
 (* ---------------------------------------------------------------- ActuatorWrapper *)
 Definition act_calls (d : option (datum tdata)) (set_answer : upd) : list call :=
@@ -98,9 +105,49 @@ Lemma encoder_model (w : @world F) t (u : upd) (o : out (@state F)) :
   = (match u, o with UOk, OSome d => set_state w t d | _, _ => w end,
      match u with UErr e => UErr e | UOk => match o with OErr e => UErr e | _ => UOk end end).
 Proof. destruct u; destruct o; reflexivity. Qed.
+
+(* ---------------------------------------------------------------- PIDWrapper *)
+(* `PIDWrapper`'s clock, state getter, command getter and controller live behind `Reference`s that alias each other (set up in
+   `new`: both getters read the clock, the controller reads the state getter and follows the command getter, the motor follows
+   the controller).  Here they are external objects: the theorem says what `update` does to them, in which order, for every
+   answer - the clock is set to the terminal data's time first, then the state, then the command (each only when present; an
+   error returns at once), then the controller is updated, then the motor; nothing but the motor is touched when the terminal
+   sees nothing.  That is the sequence `pidw_update` of Model/Devices.v composes from `cg_set`, `cpid_step` and `sett_update`
+   (ConstantGetter::set cannot fail: C15Streams.v `C15_gen_cg_set`; the controller's update is C11Streams.v
+   `C11_gen_cpid_update`); the run-level consequences are C20R.v. *)
+Definition pidw_trace (d : option (datum tdata)) (us uc up ui : upd) : list call * upd :=
+  match d with
+  | None => ([CUpdate], ui)
+  | Some td =>
+      let x := d_val td in
+      let l0 := [CTime (td_time x)] in
+      match td_state x, us with
+      | Some s, UErr e => (l0 ++ [CStateSet s], UErr e)
+      | st, _ =>
+          let l1 := l0 ++ match st with Some s => [CStateSet s] | None => [] end in
+          match td_cmd x, uc with
+          | Some k, UErr e => (l1 ++ [CCmdSet k], UErr e)
+          | cm, _ =>
+              let l2 := l1 ++ match cm with Some k => [CCmdSet k] | None => [] end in
+              match up with
+              | UErr e => (l2 ++ [CPidUpdate], UErr e)
+              | UOk => (l2 ++ [CPidUpdate; CUpdate], ui)
+              end
+          end
+      end
+  end%list.
+Theorem C20_gen_pidw_update s k (d : option (datum tdata)) (us uc up ui : upd) :
+  run_fn c (g_pidw_update c) (m_wrapper [] (m_dterm_in s k))
+    [("get:terminal:TerminalData", MOk (m_opt m_tdatum d)); ("ans:state.set", m_upd us); ("ans:command.set", m_upd uc);
+     ("ans:pid.update", m_upd up); ("ans:inner.update", m_upd ui)]
+  = Some (Ok (m_wrapper (fst (pidw_trace d us uc up ui)) (m_dterm s k), m_upd (snd (pidw_trace d us uc up ui)))).
+Proof.
+  destruct d as [[t [tt [tc|] [tst|]]]|]; destruct us; destruct uc; destruct up; destruct ui; mr_exec2.
+Qed.
 End C20Devices.
 Print Assumptions C20_gen_actuator_update.
 Print Assumptions actuator_model.
 Print Assumptions actuator_calls_match_model.
 Print Assumptions C20_gen_encoder_update.
 Print Assumptions encoder_model.
+Print Assumptions C20_gen_pidw_update.
